@@ -7,6 +7,7 @@ import sys
 sys.path.insert(0, os.path.dirname(os.path.dirname(os.path.abspath(__file__))))
 from verif_static.core import run_check, AnalysisError, REPO  # noqa
 from verif_static import model as M, cfg as C, makotree as MT, cy2ast  # noqa
+from verif_static import emit as EM, absint as AI  # noqa
 
 TPL = 'pysph/sph/acceleration_eval_cython.mako'
 AH = 'pysph/sph/acceleration_eval_cython_helper.py'
@@ -304,42 +305,48 @@ def rule_helpers(chk):
     ah = M.py(AH)
     cls = M.find_class(ah, 'AccelerationEvalCythonHelper')
     ds = M.find_func(cls, 'get_dest_array_setup')
-    # each emitted line with the condition it is emitted under
-    recs = []
-    for a in ast.walk(ds):
-        if isinstance(a, (ast.Assign, ast.AugAssign)) and U(a.targets[0] if isinstance(a, ast.Assign) else a.target) == 'lines':
-            conds = []
-            p = a
-            while getattr(p, 'parent', None) is not None and p.parent is not ds:
-                par = p.parent
-                if isinstance(par, ast.If):
-                    conds.append(compact(par.test) if any(p is x for x in par.body) else 'not(' + compact(par.test) + ')')
-                p = par
-            recs.append((compact(a.value), tuple(reversed(conds))))
-    want = [
-        ("['D_START_IDX=self.%s.%s[0]'%(dest_name,group.start_idx)]", ('isinstance(group.start_idx,str)',)),
-        ("['D_START_IDX=%s'%group.start_idx]", ('not(isinstance(group.start_idx,str))',)),
-        ("['NP_DEST=self.%s.size(real=%s)'%(dest_name,group.real)]", ('group.stop_idxisNone',)),
-        ("['NP_DEST=self.%s.%s[0]'%(dest_name,group.stop_idx)]", ('not(group.stop_idxisNone)', 'isinstance(group.stop_idx,str)')),
-        ("['NP_DEST=%s'%group.stop_idx]", ('not(group.stop_idxisNone)', 'not(isinstance(group.stop_idx,str))')),
-    ]
-    got = [(v, c) for v, c in recs if 'D_START_IDX' in v or 'NP_DEST' in v]
-    for v, c in want:
-        inst = v.split('=')[0].strip("['") + ':' + ('|'.join(c) or 'always')
-        chk.decide((v, c) in got, 'destination-range', inst, node=ds, file=AH, func='get_dest_array_setup',
-                   detail_bad='expected %s under %s; emitted: %s' % (v, c, got), detail_ok=v)
-    chk.decide(len(got) == len(want), 'destination-range', 'no-other-bounds', node=ds, file=AH, func='get_dest_array_setup',
-               detail_bad='unexpected extra range assignments: %s' % got, detail_ok='5 cases')
+    ss = M.find_func(cls, 'get_src_array_setup')
+    # what the generators emit for generic groups: every combination of a missing / named / numeric start and stop index, real or all particles
+    it = EM.interpreter()
+    helper = EM.instance(it, AH, 'AccelerationEvalCythonHelper')
+
+    def names(src_names, dst_names):
+        return lambda interp, args, kwargs, node, env: (set(src_names), set(dst_names))
+    cases = []
+    for start, wstart in ((0, 'D_START_IDX = 0'), (5, 'D_START_IDX = 5'), ('n0', 'D_START_IDX = self.fluid.n0[0]')):
+        for stop, real, wstop in ((None, True, 'NP_DEST = self.fluid.size(real=True)'), (None, False, 'NP_DEST = self.fluid.size(real=False)'),
+                                  (7, True, 'NP_DEST = 7'), ('n1', False, 'NP_DEST = self.fluid.n1[0]')):
+            cases.append((start, stop, real, wstart, wstop))
+    bad = []
+    try:
+        for start, stop, real, wstart, wstop in cases:
+            grp = EM.mock(start_idx=start, stop_idx=stop, real=real)
+            nos = EM.mock(get_array_names=names(['s_q'], ['d_x', 'd_au']))
+            srcs = {'solid': EM.mock(get_array_names=names(['s_x', 's_m'], ['d_rho', 'd_x']))}
+            text = EM.call(it, helper, 'get_dest_array_setup', 'fluid', nos, srcs, grp)
+            ls = [l.strip() for l in text.splitlines() if l.strip()]
+            want = [wstart, wstop] + ['%s = dst.%s.data' % (n, n[2:]) for n in sorted(['d_x', 'd_au', 'd_rho'])]
+            if ls != want:
+                bad.append(((start, stop, real), ls))
+        chk.decide(not bad, 'destination-range', 'emitted-bounds-and-pointers', node=ds, file=AH, func='get_dest_array_setup',
+                   detail_bad='for (start_idx, stop_idx, real) = %s the generator emits %s; expected D_START_IDX = <start | self.<dest>.<name>[0]>, NP_DEST = <self.<dest>.size(real=<real>) | '
+                              'stop | self.<dest>.<name>[0]>, then one `d_x = dst.x.data` line per destination array of the equations with and without sources'
+                              % (bad[0][0] if bad else None, bad[0][1] if bad else None),
+                   detail_ok='%d combinations of start / stop / real: bounds and destination pointers as documented' % len(cases))
+        text = EM.call(it, helper, 'get_src_array_setup', 'solid', EM.mock(get_array_names=names(['s_x', 's_m'], ['d_rho'])))
+        ls = [l.strip() for l in text.splitlines() if l.strip()]
+        ok = ls == ['NP_SRC = self.solid.size()', 's_m = src.m.data', 's_x = src.x.data']
+        chk.decide(ok, 'all-neighbours-contribute', 'NP_SRC-all-particles', node=ss, file=AH, func='get_src_array_setup',
+                   detail_bad='for a source `solid` with arrays s_x, s_m the generator emits %s: the source range must be all particles (real and ghost) and every source array bound to src.<name>' % ls,
+                   detail_ok='NP_SRC = self.<src>.size(); s_x = src.x.data ...')
+    except (AI.Unsupported, AI.Raised) as e:
+        chk.undecided('destination-range', 'emitted-bounds-and-pointers', node=ds, file=AH, func='get_dest_array_setup', detail='generator not interpretable: %s' % e)
     pr = M.find_func(cls, 'get_parallel_range')
     rets = [r for r in ast.walk(pr) if isinstance(r, ast.Return)]
     ok = len(rets) == 1 and isinstance(rets[0].value, ast.Call) and M.call_name(rets[0].value) == 'get_parallel_range' and \
         [U(a) for a in rets[0].value.args] == ["'D_START_IDX'", "'NP_DEST'"]
     chk.decide(ok, 'destination-range', 'range-uses-bounds', node=pr, file=AH, func='get_parallel_range',
                detail_bad='range is not built from D_START_IDX..NP_DEST', detail_ok='get_parallel_range("D_START_IDX", "NP_DEST")')
-    ss = M.find_func(cls, 'get_src_array_setup')
-    ok = any(compact(a.value) == "['NP_SRC=self.%s.size()'%src_name]" for a in ast.walk(ss) if isinstance(a, ast.Assign))
-    chk.decide(ok, 'all-neighbours-contribute', 'NP_SRC-all-particles', node=ss, file=AH, func='get_src_array_setup',
-               detail_bad='source size is filtered (real=...)', detail_ok='size() of all particles')
     # iteration
     ii = M.find_func(cls, 'get_iteration_init')
     lst = [x for x in ast.walk(ii) if isinstance(x, ast.List)]
@@ -384,16 +391,24 @@ def rule_helpers(chk):
                detail_ok="' & '.join over all equations and sub-groups")
     # dispatch map
     gm = M.find_func(cls, '_compute_group_map')
-    src = U(gm)
-    ok = "enumerate(self.object.mega_groups)" in src and "mapping[group] = 'self.groups[%d]' % g_idx" in src and \
-        "enumerate(group.data)" in src and "'self.groups[{gid}].data[{sgid}]'.format(gid=g_idx, sgid=sg_idx)" in src and 'mapping[sub_group] = code' in src
-    chk.decide(ok, 'dispatch', 'group-map', node=gm, file=AH, func='_compute_group_map',
-               detail_bad='group -> self.groups[i](.data[j]) mapping changed', detail_ok='self.groups[i] / self.groups[i].data[j]')
-    for nm, suffix in (('get_condition_call', "'.condition(t, dt)'"), ('get_pre_call', "'.pre()'"), ('get_post_call', "'.post()'")):
-        f = M.find_func(cls, nm)
-        rets = [compact(r.value) for r in ast.walk(f) if isinstance(r, ast.Return)]
-        chk.decide(rets == ['self._group_map[group]+' + suffix.replace(' ', '')], 'dispatch', nm, node=f, file=AH, func=nm,
-                   detail_bad='%s emits %s' % (nm, rets), detail_ok='map[group] + ' + suffix)
+    try:
+        sg0, sg1 = EM.mock(has_subgroups=False), EM.mock(has_subgroups=False)
+        g0, g1 = EM.mock(has_subgroups=False, data={}), EM.mock(has_subgroups=True, data=[sg0, sg1])
+        helper2 = EM.instance(it, AH, 'AccelerationEvalCythonHelper', object=EM.mock(mega_groups=[g0, g1]))
+        EM.call(it, helper2, '_compute_group_map')
+        mp = helper2.attrs.get('_group_map')
+        ok = isinstance(mp, dict) and mp.get(g0) == 'self.groups[0]' and mp.get(g1) == 'self.groups[1]' and mp.get(sg0) == 'self.groups[1].data[0]' and \
+            mp.get(sg1) == 'self.groups[1].data[1]' and len(mp) == 4
+        chk.decide(ok, 'dispatch', 'group-map', node=gm, file=AH, func='_compute_group_map',
+                   detail_bad='for groups [g0, g1 with sub-groups sg0, sg1] the map is %s: group i must be self.groups[i] and its j-th sub-group self.groups[i].data[j]'
+                              % (sorted(mp.values()) if isinstance(mp, dict) else mp), detail_ok='self.groups[i] / self.groups[i].data[j]')
+        for nm, suffix in (('get_condition_call', '.condition(t, dt)'), ('get_pre_call', '.pre()'), ('get_post_call', '.post()')):
+            f = M.find_func(cls, nm)
+            got = [EM.call(it, helper2, nm, g) for g in (g0, sg1)]
+            chk.decide(got == ['self.groups[0]' + suffix, 'self.groups[1].data[1]' + suffix], 'dispatch', nm, node=f, file=AH, func=nm,
+                       detail_bad='%s emits %s' % (nm, got), detail_ok='map[group] + ' + suffix)
+    except (AI.Unsupported, AI.Raised) as e:
+        chk.undecided('dispatch', 'group-map', node=gm, file=AH, func='_compute_group_map', detail='generator not interpretable: %s' % e)
     scm = M.find_func(cls, 'setup_compiled_module')
     c = [x for x in M.calls(scm) if M.call_name(x) == 'module.AccelerationEval']
     ok = bool(c) and [compact(a) for a in c[0].args] == ['object.kernel', 'object.all_group.equations', 'object.particle_arrays', 'object.mega_groups']
